@@ -44,7 +44,7 @@ QR_ARR = ["qra"]
 OP = ["op1", "op2"]
 CONT = ["obj", "self", "info"]          # scalar containers of derived type
 CONT_ARR = ["objs"]
-INDICES = ["1", "2", "3", "i", "i+1", "n"]
+INDICES = ["1", "2", "3", "i", "i+1", "n", "1+i"]
 RLITS = ["1.0_r_def", "0.5_r_def", "2.0", "-1.0_r_def", "0.0_r_def", "2.0_r_def*3.0_r_def"]
 ILITS = ["1", "2", "3", "2_i_def"]
 
@@ -57,13 +57,11 @@ def lit(text):
     return {"lit": True, "dirconst": False, "canon": text, "root": None, "src": text}
 
 
-def noisy(rng, text, literal=False):
-    """random case and blanks; does not change the Fortran meaning"""
+def _noisy_seg(rng, text, mode, keep_case):
     out = []
-    mode = rng.choice(["same", "same", "upper", "mixed"])
     for ch in text:
         c = ch
-        if ch.isalpha() and not literal:   # kind suffixes keep their case: 'r_deF' crashes LFRic precision lookup
+        if ch.isalpha() and not keep_case:
             if mode == "upper":
                 c = ch.upper()
             elif mode == "mixed" and rng.random() < 0.4:
@@ -71,22 +69,56 @@ def noisy(rng, text, literal=False):
         if ch in "%()+*," and rng.random() < 0.35:
             c = rng.choice([" " + c, c + " ", " " + c + " "])
         out.append(c)
-    s = "".join(out)
-    return s
+    return "".join(out)
+
+
+def noisy(rng, text, literal=False, member_noise=False):
+    """random case and blanks; does not change the Fortran meaning.  Literals keep their case (a kind suffix
+    'r_deF' crashes the LFRic precision lookup); the NAME of a %-component keeps its case unless member_noise
+    (PSyIR compares member names case-sensitively: finding C24-psyir-path-spelling-classes)."""
+    mode = rng.choice(["same", "same", "upper", "mixed"])
+    if literal:
+        return _noisy_seg(rng, text, mode, True)
+    segs = text.split("%")
+    out = [_noisy_seg(rng, segs[0], mode, False)]
+    for seg in segs[1:]:
+        m = re.match(r"([a-z_]\w*)(.*)", seg)
+        name, rest = (m.group(1), m.group(2)) if m else ("", seg)
+        out.append(_noisy_seg(rng, name, mode, not member_noise) + _noisy_seg(rng, rest, mode, False))
+    return rng.choice(["%", " %", "% ", " % "]).join(out)
+
+
+def spelling_class(src):
+    """key of the class of a written expression under PSyIR SymbolicMaths.equal: symbols and index expressions are
+    case-insensitive (indices compared symbolically: i+1 == 1+i), member names after % are case-SENSITIVE."""
+    t = re.sub(r"\s+", "", src)
+    segs = t.split("%")
+
+    def idx_norm(x):
+        return re.sub(r"\((\d+)\+([a-z]\w*)\)", r"(\2+\1)", x.lower())
+    out = [idx_norm(segs[0])]
+    for seg in segs[1:]:
+        m = re.match(r"([A-Za-z_]\w*)(.*)", seg)
+        out.append(m.group(1) + idx_norm(m.group(2)))
+    return "%".join(out)
 
 
 class Pools:
     """Expression factory for one algorithm file (keeps the expressions already used so that
     repetitions across kernels / invokes are frequent)."""
 
-    def __init__(self, rng, tricky=True):
+    def __init__(self, rng, tricky=True, clash=False):
         self.rng = rng
         self.tricky = tricky
+        self.clash = clash            # also produce names of PSy-layer internals made by string concatenation
+        self.member_noise = rng.choice([0.0, 0.0, 0.0, 0.15])
         self.used = {}      # kind -> list of expressions already produced
 
     def _base(self, kind):
         r = self.rng
         if kind == "field":
+            if self.clash and r.random() < 0.2:
+                return r.choice(FIELD_CLASH), False
             if self.tricky and r.random() < 0.12:
                 return r.choice(FIELD_TRICKY), False
             if r.random() < 0.25:
@@ -156,7 +188,8 @@ class Pools:
                 continue
             break
         e = dict(e)
-        e["src"] = noisy(r, e["canon"], literal=e["lit"])
+        e["src"] = noisy(r, e["canon"], literal=e["lit"], member_noise=r.random() < self.member_noise)
+        e["cls"] = None if (e["lit"] or e["dirconst"]) else spelling_class(e["src"])
         if not e["dirconst"]:
             self.used.setdefault(kind, []).append(e)
         return e
